@@ -353,7 +353,7 @@ def cases(draw, max_dims=4, max_len=3):
 
 class Sampled(Facet):
     name = "sampled"
-    examples = {"quick": 24000, "thorough": 900000}
+    examples = {"quick": 24000, "thorough": 600000}
     shards = {"quick": 16, "thorough": 16}
 
     def strategy(self, tier):
